@@ -1,3 +1,4 @@
+import numpy
 from sklearn.base import BaseEstimator, RegressorMixin, ClassifierMixin, clone
 from sklearn.exceptions import NotFittedError
 from sklearn.linear_model import LinearRegression, LogisticRegression
@@ -211,7 +212,8 @@ class TransformedTargetClassifier2(BaseEstimator, ClassifierMixin):
         self._check_is_fitted()
         inv = self.transformer_.get_fct_inv()
         _, pred_inv = inv.transform(None, self.classifier_.classes_)
-        return pred_inv
+        # probability columns are ordered by sorted original labels
+        return numpy.sort(pred_inv)
 
     def _apply(self, X, method):
         """
